@@ -48,9 +48,36 @@ def refactors():
     return '\n'.join(out)
 
 
+def rounds():
+    import collections
+    R = collections.defaultdict(lambda: [0, 0]); L = collections.defaultdict(lambda: [0, 0]); S = collections.defaultdict(lambda: [0, 0])
+    for d in glob.glob(V + '/refactors/C*-*'):
+        if not os.path.isdir(d) or not os.path.exists(d + '/meta.json'): continue
+        m = json.load(open(d + '/meta.json'))
+        if m.get('same_patch_as'): continue
+        r = m.get('round', 1); a = 1 if m.get('first_run_alarm') else 0
+        R[r][0] += 1; R[r][1] += a
+        n = int(os.path.basename(d).split('-')[1]) % 10
+        if r >= 2:
+            light = (r == 2 and n <= 3) or (r >= 3 and n <= 4)
+            k = (r, light); L[k][0] += 1; L[k][1] += a
+    for d in glob.glob(V + '/seeded/C*-*'):
+        if not os.path.isdir(d): continue
+        m = json.load(open(d + '/meta.json')); r = m.get('round', 1)
+        fr = m.get('first_run')
+        miss = (fr is not None and fr.get('exit') != 1) or (fr is None and bool(m.get('history')))
+        S[r][0] += 1; S[r][1] += 1 if miss else 0
+    out = ['| round | unseen refactorings | alarmed on arrival | of which light edits | unseen seeds | missed on arrival |', '|---|---|---|---|---|---|']
+    for r in sorted(set(R) | set(S)):
+        n, a = R.get(r, [0, 0]); sn, sm = S.get(r, [0, 0])
+        li = L.get((r, True))
+        out.append('| %d | %d | %d (%.0f%%) | %s | %d | %d (%.0f%%) |' % (r, n, a, 100.0 * a / n if n else 0, ('%d of %d' % (li[1], li[0])) if li else '—', sn, sm, 100.0 * sm / sn if sn else 0))
+    return '\n'.join(out)
+
+
 def main():
     p = V + '/DESIGN.md'; s = open(p).read()
-    for key, fn in (('SEEDS', seeds), ('REFACTORS', refactors)):
+    for key, fn in (('SEEDS', seeds), ('REFACTORS', refactors), ('ROUNDS', rounds)):
         a = '<!-- %s:BEGIN -->' % key; b = '<!-- %s:END -->' % key
         if a in s and b in s:
             s = s[:s.index(a) + len(a)] + '\n' + fn() + '\n' + s[s.index(b):]
